@@ -406,6 +406,7 @@ def run(ctx):
         sanc = target if getattr(op, "sanctioned", False) else None
 
         def thunk():
+            core.clear_library_caches(pb)     # the lru_cache memo must not shorten re-executions
             return op.call(pb, z, args, desc)
 
         # ---- fault-free, counted ----
